@@ -277,6 +277,7 @@ def run_both(ctx, cases, exe, component, jobs=16, timeout=600, c_env=None):
         if exe:
             todo = list(idxs)
             # a crash ends the process: record it for the last case begun and continue after it
+            restarts = 0
             while todo:
                 rc, out, _ = run_stream([exe], batch_text(cases, todo), timeout, c_env)
                 got = _split_cases(out)
@@ -288,6 +289,9 @@ def run_both(ctx, cases, exe, component, jobs=16, timeout=600, c_env=None):
                 bad = started[-1] if started else todo[0]
                 res[("crash", bad)] = f"rc={rc}\n" + out[-3000:]
                 todo = todo[todo.index(bad) + 1:] if bad in todo else []
+                restarts += 1
+                if restarts >= 3:      # a tree that crashes on most cases: three witnesses per chunk are enough
+                    break
         if component:
             rc, out, _ = run_stream([model, component], txt, timeout)
             if rc != 0:
@@ -415,7 +419,7 @@ def correspondence_stage(ctx, cases=None, exe=None):
                 reported += 1
             continue
         if cl is None:
-            if exe:
+            if exe and not crashes:
                 ctx.machinery_broken(f"no implementation output for case {i}")
             continue
         # direct oracle on the implementation's own output
